@@ -10,7 +10,7 @@ import traceback
 
 VERIF = os.path.dirname(os.path.dirname(os.path.abspath(__file__)))
 KNOWN_FILE = os.path.join(VERIF, "known_findings.json")
-EVIDENCE_DIR = os.path.join(VERIF, "evidence")
+EVIDENCE_DIR = os.environ.get("PDXSA_EVIDENCE_DIR") or os.path.join(VERIF, "evidence")
 
 
 class AnalysisError(Exception):
